@@ -1,9 +1,281 @@
-"""Sanitizer layer (Miri, AddressSanitizer) — filled in together with C12."""
+"""Sanitizer layer: AddressSanitizer (C12, all panels, full-size frames) and Miri (C12 on the small
+panels incl. the only `unsafe` driver; C03/C13/C14/C16 on small domains).
+
+A sanitizer report whose stack contains a frame under /repo/src is a violation of the property
+being exercised (class `asan:<kind>` / `miri:<kind>`, tag = the driver function in /repo/src).
+If a sanitizer cannot be built or run the result is *inconclusive*, never a violation."""
+import json, os, re, subprocess, sys, time
+from concurrent.futures import ThreadPoolExecutor
+
+ROOT = os.path.dirname(os.path.abspath(__file__))
+HARNESS = os.path.join(ROOT, "harness")
+OUT = os.path.join(ROOT, "out")
+ASAN_DIR = os.path.join(HARNESS, "target-asan")
+MIRI_DIR = os.path.join(HARNESS, "target-miri")
+ASAN_BIN = os.path.join(ASAN_DIR, "x86_64-unknown-linux-gnu", "release", "epdmon")
+
+ENV = dict(os.environ)
+ENV["CARGO_NET_OFFLINE"] = "true"
+ENV.setdefault("CARGO_TERM_COLOR", "never")
+
+PANELS = ["epd1in02", "epd1in54", "epd1in54_v2", "epd1in54b", "epd1in54c", "epd2in13_v2", "epd2in13b_v4", "epd2in13bc", "epd2in66b", "epd2in7", "epd2in7_v2",
+          "epd2in7b", "epd2in9", "epd2in9_v2", "epd2in9b_v4", "epd2in9bc", "epd2in9d", "epd3in7", "epd4in2", "epd5in65f", "epd5in83_v2", "epd5in83b_v2", "epd7in3f",
+          "epd7in5", "epd7in5_hd", "epd7in5_v2", "epd7in5b_v2"]
+MIRI_PANELS = ["epd2in9d", "epd1in02", "epd1in54c", "epd2in13bc"]
+
+
+def build_asan(log):
+    env = dict(ENV)
+    env["RUSTFLAGS"] = "-Zsanitizer=address -Cforce-frame-pointers=yes"
+    cmd = ["cargo", "+nightly", "build", "--release", "--offline", "--target", "x86_64-unknown-linux-gnu", "--target-dir", ASAN_DIR, "--features", "verif"]
+    t0 = time.time()
+    p = subprocess.run(cmd, cwd=HARNESS, env=env, stdout=subprocess.PIPE, stderr=subprocess.STDOUT, text=True)
+    if p.returncode != 0:
+        log("[sanitize] ASan build failed:\n" + p.stdout[-3000:])
+        return False
+    log("[sanitize] ASan build ok in %.1fs" % (time.time() - t0))
+    return True
+
+
+def miri_cmd(args):
+    return ["cargo", "+nightly", "miri", "run", "--offline", "--target-dir", MIRI_DIR, "--features", "verif", "--"] + args
+
+
+def miri_env():
+    env = dict(ENV)
+    env["MIRIFLAGS"] = "-Zmiri-disable-isolation"
+    return env
 
 
 def setup(log):
-    return
+    build_asan(log)
+    # warm the Miri sysroot and build
+    t0 = time.time()
+    p = subprocess.run(miri_cmd(["C16", "--mode", "miri", "--threads", "1", "--out", os.path.join(OUT, "miri-warm.json")]), cwd=HARNESS, env=miri_env(), stdout=subprocess.PIPE, stderr=subprocess.STDOUT, text=True)
+    log("[sanitize] Miri warm-up rc=%s in %.1fs" % (p.returncode, time.time() - t0))
+
+
+FRAME_RE = re.compile(r"in (.*?) (/repo/src/[^\s:]+):(\d+)")
+
+
+def parse_asan(text):
+    """returns list of (kind, func, file) for each report block"""
+    reps = []
+    for block in text.split("================================================================="):
+        m = re.search(r"ERROR: AddressSanitizer: ([\w-]+)", block)
+        if not m:
+            continue
+        kind = m.group(1)
+        func, file = None, None
+        frames = FRAME_RE.findall(block.split("freed by thread")[0] if "freed by thread" in block else block)
+        # prefer the driver frame (epd*/mod.rs) over the generic interface frame
+        pick = None
+        for fn, path, line in frames:
+            if "/repo/src/epd" in path:
+                pick = (fn, path, line)
+                break
+        if pick is None and frames:
+            pick = frames[0]
+        if pick:
+            fn, path, line = pick
+            mm = re.search(r"::(\w+)$", fn.strip()) or re.search(r"(\w+)$", fn.strip())
+            func = mm.group(1) if mm else fn.strip()[-40:]
+            file = path.replace("/repo/", "")
+        reps.append((kind, func, file, block[:3000]))
+    return reps
+
+
+def run_asan_panel(panel, tier, seed, shard=None):
+    os.makedirs(OUT, exist_ok=True)
+    tag = panel if shard is None else "%s-%d" % (panel, shard[0])
+    outp = os.path.join(OUT, "asan-%s.json" % tag)
+    if os.path.exists(outp):
+        os.remove(outp)
+    env = dict(ENV)
+    env["ASAN_OPTIONS"] = "halt_on_error=1:detect_leaks=0:abort_on_error=0:symbolize=1"
+    cmd = [ASAN_BIN, "C12", "--mode", "twin-b", "--tier", tier, "--seed", str(seed), "--panel", panel, "--out", outp, "--threads", "2"]
+    if shard is not None:
+        cmd += ["--shard", "%d/%d" % shard]
+    try:
+        p = subprocess.run(cmd, cwd=ROOT, env=env, stdout=subprocess.PIPE, stderr=subprocess.PIPE, text=True, timeout=1800)
+    except subprocess.TimeoutExpired:
+        return panel, None, [], "timeout"
+    reps = parse_asan(p.stderr)
+    rep = None
+    if os.path.exists(outp):
+        with open(outp) as f:
+            rep = json.load(f)
+    err = None
+    if rep is None and not reps:
+        err = "rc=%s %s" % (p.returncode, p.stderr[-300:])
+    return panel, rep, reps, err
+
+
+def run_c12(tier, seed, log):
+    res = {"summary": {}, "failures": [], "evaluations": 0, "distinct_nontrivial": 0, "inconclusive": 0, "inconclusive_notes": []}
+    # ---------------- ASan -----------------
+    t0 = time.time()
+    if not build_asan(log):
+        res["inconclusive"] += 1
+        res["inconclusive_notes"].append("ASan build unavailable: sanitizer half of C12 inconclusive")
+        res["summary"]["asan"] = "unavailable"
+    else:
+        asan = {"panels": {}, "reports": []}
+        with ThreadPoolExecutor(max_workers=8) as ex:
+            results = list(ex.map(lambda p: run_asan_panel(p, tier, seed), PANELS))
+        reporting = []
+        for panel, rep, reps, err in results:
+            if err:
+                res["inconclusive"] += 1
+                res["inconclusive_notes"].append("asan %s: %s" % (panel, err))
+                continue
+            if rep:
+                res["evaluations"] += rep["evaluations"]
+                res["distinct_nontrivial"] += rep["distinct_nontrivial"]
+                asan["panels"][panel] = {"histories": rep["evaluations"], "transfers": rep["counters"].get("transfers_executed", 0)}
+            if reps:
+                reporting.append(panel)
+            for kind, func, file, block in reps:
+                asan["reports"].append({"panel": panel, "kind": kind, "func": func, "file": file})
+                res["failures"].append({"panel": panel, "entry": func or "?", "class": "asan:%s" % kind, "tags": [file or "?"],
+                                        "detail": "AddressSanitizer %s in %s (%s)" % (kind, func, file), "case": {"panel": panel, "mode": "twin-b", "report_head": block[:1200]}})
+        # a panel whose process was stopped by its first report: explore the rest in shards
+        for panel in reporting:
+            n = 12
+            with ThreadPoolExecutor(max_workers=8) as ex:
+                sres = list(ex.map(lambda i: run_asan_panel(panel, tier, seed, (i, n)), range(n)))
+            done = 0
+            for _, rep, reps, err in sres:
+                if rep:
+                    done += rep["evaluations"]
+                    res["evaluations"] += rep["evaluations"]
+                    res["distinct_nontrivial"] += rep["distinct_nontrivial"]
+                for kind, func, file, block in reps:
+                    asan["reports"].append({"panel": panel, "kind": kind, "func": func, "file": file, "shard": True})
+                    res["failures"].append({"panel": panel, "entry": func or "?", "class": "asan:%s" % kind, "tags": [file or "?"],
+                                            "detail": "AddressSanitizer %s in %s (%s)" % (kind, func, file), "case": {"panel": panel, "mode": "twin-b", "report_head": block[:1200]}})
+            asan["panels"][panel] = {"sharded": n, "histories_completed_in_clean_shards": done}
+        asan["wall_s"] = round(time.time() - t0, 1)
+        res["summary"]["asan"] = asan
+    # ---------------- Miri -----------------
+    t0 = time.time()
+    miri = {"panels": {}, "reports": []}
+    panels = MIRI_PANELS if tier == "thorough" else MIRI_PANELS[:1]
+
+    def one(panel):
+        outp = os.path.join(OUT, "miri-C12-%s.json" % panel)
+        if os.path.exists(outp):
+            os.remove(outp)
+        cmd = miri_cmd(["C12", "--mode", "miri", "--panel", panel, "--threads", "1", "--seed", str(seed), "--out", outp])
+        try:
+            p = subprocess.run(cmd, cwd=HARNESS, env=miri_env(), stdout=subprocess.PIPE, stderr=subprocess.PIPE, text=True, timeout=3000)
+        except subprocess.TimeoutExpired:
+            return panel, None, None, "timeout"
+        rep = None
+        if os.path.exists(outp):
+            with open(outp) as f:
+                rep = json.load(f)
+        return panel, rep, p.stderr, None if (rep or "Undefined Behavior" in p.stderr) else "rc=%s %s" % (p.returncode, p.stderr[-400:])
+
+    with ThreadPoolExecutor(max_workers=4) as ex:
+        mres = list(ex.map(one, panels))
+    for panel, rep, stderr, err in mres:
+        if err:
+            res["inconclusive"] += 1
+            res["inconclusive_notes"].append("miri %s: %s" % (panel, err))
+            continue
+        if rep:
+            res["evaluations"] += rep["evaluations"]
+            res["distinct_nontrivial"] += rep["distinct_nontrivial"]
+            miri["panels"][panel] = {"histories": rep["evaluations"], "transfers": rep["counters"].get("transfers_executed", 0)}
+        f = parse_miri(stderr or "")
+        if f:
+            kind, func, file, head = f
+            miri["reports"].append({"panel": panel, "kind": kind, "func": func, "file": file})
+            res["failures"].append({"panel": panel, "entry": func or "?", "class": "miri:%s" % kind, "tags": [file or "?"],
+                                    "detail": "Miri: %s in %s (%s)" % (kind, func, file), "case": {"panel": panel, "mode": "miri", "report_head": head}})
+    miri["wall_s"] = round(time.time() - t0, 1)
+    res["summary"]["miri"] = miri
+    return res
+
+
+def parse_miri(text):
+    m = re.search(r"error: Undefined Behavior: (.*)", text)
+    if not m:
+        return None
+    msg = m.group(1)
+    if "dangling" in msg or "freed" in msg or "use-after-free" in msg or "has been freed" in msg:
+        kind = "use-after-free"
+    elif "out-of-bounds" in msg:
+        kind = "out-of-bounds"
+    else:
+        kind = "undefined-behavior"
+    tail = text[m.start():]
+    func, file = None, None
+    # backtrace lines look like:  = note: inside `path::func` at /repo/src/...:L:C
+    frames = re.findall(r"\d+: (.*)\n\s+at (/repo/src/[^\s:]+):(\d+)", tail)
+    frames += re.findall(r"inside `([^`]*)` at (/repo/src/[^\s:]+):(\d+)", tail)
+    pick = None
+    for fn, path, line in frames:
+        if "/repo/src/epd" in path or "/repo/src/graphics" in path or "/repo/src/color" in path or "/repo/src/rect" in path:
+            pick = (fn, path)
+            break
+    if pick is None and frames:
+        pick = (frames[0][0], frames[0][1])
+    if pick is None:
+        mm = re.search(r"--> (/repo/src/[^\s:]+):(\d+)", tail)
+        if mm:
+            pick = ("?", mm.group(1))
+    if pick:
+        fn, path = pick
+        mm = re.search(r"::(\w+)(?:::\{closure[^}]*\})?$", fn) or re.search(r"(\w+)$", fn)
+        func = mm.group(1) if mm else fn[-40:]
+        file = path.replace("/repo/", "")
+    return kind, func, file, tail[:1500]
+
+
+def run_pure(prop, tier, seed, log):
+    res = {"summary": {}, "failures": [], "evaluations": 0, "distinct_nontrivial": 0, "inconclusive": 0, "inconclusive_notes": []}
+    t0 = time.time()
+    outp = os.path.join(OUT, "miri-%s.json" % prop)
+    if os.path.exists(outp):
+        os.remove(outp)
+    cmd = miri_cmd([prop, "--mode", "miri", "--threads", "1", "--seed", str(seed), "--out", outp])
+    try:
+        p = subprocess.run(cmd, cwd=HARNESS, env=miri_env(), stdout=subprocess.PIPE, stderr=subprocess.PIPE, text=True, timeout=3000)
+    except subprocess.TimeoutExpired:
+        res["inconclusive"] += 1
+        res["inconclusive_notes"].append("miri %s: timeout" % prop)
+        return res
+    rep = None
+    if os.path.exists(outp):
+        with open(outp) as f:
+            rep = json.load(f)
+    f = parse_miri(p.stderr)
+    if rep is None and f is None:
+        res["inconclusive"] += 1
+        res["inconclusive_notes"].append("miri %s: rc=%s %s" % (prop, p.returncode, p.stderr[-400:]))
+        return res
+    summ = {"wall_s": round(time.time() - t0, 1)}
+    if rep:
+        # the Miri run executes the same monitors on a small domain: its monitor failures are
+        # the same findings as in the native run and are not duplicated here; only UB counts.
+        summ["cases"] = rep["evaluations"]
+        summ["monitor_failure_signatures"] = len(rep.get("fail_counts", {}))
+        res["evaluations"] += rep["evaluations"]
+        res["distinct_nontrivial"] += rep["distinct_nontrivial"]
+    if f:
+        kind, func, file, head = f
+        summ["report"] = {"kind": kind, "func": func, "file": file}
+        res["failures"].append({"panel": "miri", "entry": func or "?", "class": "miri:%s" % kind, "tags": [file or "?"], "detail": "Miri: %s in %s (%s)" % (kind, func, file), "case": {"mode": "miri", "report_head": head}})
+    res["summary"]["miri"] = summ
+    return res
 
 
 def run(prop, tier, seed, log):
-    return {"summary": {"note": "sanitizer layer not wired yet"}, "failures": [], "evaluations": 0, "distinct_nontrivial": 0}
+    if prop == "C12":
+        return run_c12(tier, seed, log)
+    if tier != "thorough":
+        # the small-domain Miri pass of the pure-code properties belongs to the thorough tier
+        return {"summary": {"miri": "thorough tier only"}, "failures": [], "evaluations": 0, "distinct_nontrivial": 0}
+    return run_pure(prop, tier, seed, log)
